@@ -259,6 +259,11 @@ class _Prob(str):
     none_added = False
 
 
+def _rest_kind(none_added):
+    """Root-cause bucket of a 'parameters at rest are not the configured ones' observation, by the shape of the difference."""
+    return "llm-params-none-left-in-model-kwargs" if none_added else "llm-params-not-restored"
+
+
 class Pipe(pipeline.Pipeline):
     """vf.pipeline.Pipeline with the LLM object of the case (the base class hard-wires fakes.ScriptedLLM)."""
 
@@ -609,8 +614,8 @@ def _seq_isolated(case, problems):
             o = turn_sync(pipe, conv, t, text, api)
             rec["obs"].append(o)
             prob = pipe.params_problem()
-            if prob and not any(v.kind == "llm-params-not-restored" for v in problems):
-                problems.append(Violation("llm-params-not-restored", f"[seq/isolated] conversation {i} alone on a fresh instance, after turn {t} (LLM calls {[c['task'] for c in o['calls']]}): {prob}",
+            if prob and not any(v.kind == _rest_kind(prob.none_added) for v in problems):
+                problems.append(Violation(_rest_kind(prob.none_added), f"[seq/isolated] conversation {i} alone on a fresh instance, after turn {t} (LLM calls {[c['task'] for c in o['calls']]}): {prob}",
                                           {"leg": "seq", "overlap": False, "sequential": True, "none_added": prob.none_added}))
             rec["replies"].append(str(o["message"].get("content")) if o["raised"] is None else "a")
             rec["keys"].append(lossy_key(conv.messages))
@@ -685,8 +690,8 @@ def run_seq(case, problems):
         else:
             labels.append("generate-raised")
         prob = shared.params_problem()
-        if prob and not any(v.kind == "llm-params-not-restored" for v in problems):
-            problems.append(Violation("llm-params-not-restored", f"{where}: after the turn, no request in flight: {prob}", {"leg": "seq", "overlap": False, "sequential": True, "none_added": prob.none_added}))
+        if prob and not any(v.kind == _rest_kind(prob.none_added) for v in problems):
+            problems.append(Violation(_rest_kind(prob.none_added), f"{where}: after the turn, no request in flight: {prob}", {"leg": "seq", "overlap": False, "sequential": True, "none_added": prob.none_added}))
         if i in unjudged or i in diverged:
             continue
         diffs = compare_turn(o, iso[i]["obs"][t], ordered=False)
@@ -777,8 +782,8 @@ def _conc_isolated(case, problems):
             return first[0] if first else None
 
         prob = _run_loop(main)
-        if prob and not any(v.kind == "llm-params-not-restored" for v in problems):
-            problems.append(Violation("llm-params-not-restored", f"[conc/isolated] task {i} alone on a fresh instance (options {conv.options}), {prob}", {"leg": "conc", "overlap": False, "sequential": True, "none_added": prob.none_added}))
+        if prob and not any(v.kind == _rest_kind(prob.none_added) for v in problems):
+            problems.append(Violation(_rest_kind(prob.none_added), f"[conc/isolated] task {i} alone on a fresh instance (options {conv.options}), {prob}", {"leg": "conc", "overlap": False, "sequential": True, "none_added": prob.none_added}))
         iso.append(conv)
     return iso
 
@@ -889,7 +894,7 @@ def run_conc(case, problems):
         at, none_added, msg = state["idle_problems"][0]
         d = race_detail(-1, at)
         d.update(what="idle", none_added=none_added)
-        problems.append(Violation("llm-params-not-restored", f"[conc] {len(tasks)} tasks on one instance: {msg}; {d['n_racing_pairs']} pairs of `with llm_params` blocks of different tasks (at least one altering a parameter) were open at the same time before that observation", d))
+        problems.append(Violation(_rest_kind(none_added), f"[conc] {len(tasks)} tasks on one instance: {msg}; {d['n_racing_pairs']} pairs of `with llm_params` blocks of different tasks (at least one altering a parameter) were open at the same time before that observation", d))
     view = {
         "leg": "conc", "config": cfg, "llm": case["llm"],
         "tasks": [{"start": ts["start"], "options": convs[i].options, "stream": bool(ts.get("stream")), "latencies": ts.get("lat"), "users": _task_texts(i, ts),
@@ -954,11 +959,10 @@ def known(case, violation):
             return "C15-F9c"  # the None left behind by an earlier call is what this call ran with
         if d.get("overlap") and d.get("observed_is_foreign"):
             return "C15-F9b"
-    if violation.kind == "llm-params-not-restored":
-        if kw and d.get("none_added"):
-            return "C15-F9c"
-        if d.get("overlap") and not d.get("sequential"):
-            return "C15-F9b"
+    if violation.kind == "llm-params-none-left-in-model-kwargs" and kw and d.get("none_added"):
+        return "C15-F9c"
+    if violation.kind == "llm-params-not-restored" and d.get("overlap") and not d.get("sequential"):
+        return "C15-F9b"
     return None
 
 
